@@ -128,6 +128,7 @@ var defaultCollation = map[string]string{
 	"ascii":   "ascii_general_ci",
 	"binary":  "binary",
 	"gb2312":  "gb2312_chinese_ci",
+	"gb18030": "gb18030_chinese_ci",
 	"utf16":   "utf16_general_ci",
 }
 
@@ -140,6 +141,7 @@ var collationCharset = map[string]string{
 	"gbk_chinese_ci": "gbk", "gbk_bin": "gbk",
 	"ascii_general_ci": "ascii", "ascii_bin": "ascii",
 	"gb2312_chinese_ci": "gb2312", "gb2312_bin": "gb2312",
+	"gb18030_chinese_ci": "gb18030", "gb18030_bin": "gb18030",
 	"utf16_general_ci": "utf16", "utf16_bin": "utf16",
 	"binary": "binary",
 }
@@ -151,6 +153,7 @@ var collationByID = map[byte]string{
 	33: "utf8_general_ci", 83: "utf8_bin", 192: "utf8_unicode_ci",
 	45: "utf8mb4_general_ci", 46: "utf8mb4_bin", 224: "utf8mb4_unicode_ci", 246: "utf8mb4_unicode_520_ci", 255: "utf8mb4_0900_ai_ci",
 	11: "ascii_general_ci", 65: "ascii_bin", 24: "gb2312_chinese_ci", 86: "gb2312_bin",
+	248: "gb18030_chinese_ci", 249: "gb18030_bin",
 	54: "utf16_general_ci", 55: "utf16_bin", 63: "binary",
 }
 
